@@ -1,5 +1,5 @@
 From Coq Require Import List Bool Arith Lia Permutation.
-From PV Require Import Base.Num Base.Res Base.ListX Model.Dominance Model.RankCrowd.
+From PV Require Import Base.Num Base.Res Base.ListX Model.Dominance Model.RankCrowd Proofs.DominanceP.
 Import ListNotations.
 
 (* ---------- boolean list predicates ---------- *)
@@ -766,5 +766,157 @@ Proof.
   { apply pick_F2 in Hp. clear - Hp Hok. induction Hp as [|x v l1 l2 Hav Hp IH]; constructor; [|assumption].
     rewrite Forall_forall in Hok. apply Hok. eapply nth_error_In; eauto. }
   exists va, vb. repeat split; auto. exact (sorted_desc_split sv m Hoksv Hs va vb Hia Hib).
+Qed.
+
+(* ---------- C08: every dominated individual is dominated by a member of the first front (finite descent) ---------- *)
+Definition well_formed_objs (F : list (list N)) (m : nat) : Prop :=
+  Forall (fun r => length r = m /\ Forall ok r) F.
+
+Lemma filter_length_sub {A} (f g : A -> bool) (l : list A) :
+  (forall y, In y l -> f y = true -> g y = true) -> length (filter f l) <= length (filter g l).
+Proof.
+  induction l as [|z l IH]; intro Hsub; cbn; [lia|].
+  assert (IH' : length (filter f l) <= length (filter g l)) by (apply IH; intros w Hw; apply Hsub; now right).
+  destruct (f z) eqn:Ef.
+  - rewrite (Hsub z (or_introl eq_refl) Ef). cbn. lia.
+  - destruct (g z); cbn; lia.
+Qed.
+
+Lemma filter_length_lt {A} (f g : A -> bool) (l : list A) x :
+  (forall y, In y l -> f y = true -> g y = true) -> In x l -> g x = true -> f x = false ->
+  length (filter f l) < length (filter g l).
+Proof.
+  induction l as [|y l IH]; intros Hsub Hin Hg Hf; [destruct Hin|].
+  assert (Hsub' : forall w, In w l -> f w = true -> g w = true) by (intros w Hw; apply Hsub; now right).
+  cbn. destruct Hin as [->|Hin].
+  - rewrite Hg, Hf. cbn. pose proof (filter_length_sub f g l Hsub'). lia.
+  - pose proof (IH Hsub' Hin Hg Hf) as IH'. destruct (f y) eqn:Ef.
+    + rewrite (Hsub y (or_introl eq_refl) Ef). cbn. lia.
+    + destruct (g y); cbn; lia.
+Qed.
+
+Lemma row_ok (F : list (list N)) m i : well_formed_objs F m -> i < length F ->
+  length (nth i F []) = m /\ Forall ok (nth i F []).
+Proof. intros H Hi. unfold well_formed_objs in H. rewrite Forall_forall in H. apply H. now apply nth_In. Qed.
+
+Lemma descent (F : list (list N)) m : well_formed_objs F m ->
+  forall c i, i < length F ->
+    length (filter (fun j => pdomb (nth j F []) (nth i F [])) (seq 0 (length F))) <= c ->
+    (forall j, j < length F -> pdomb (nth j F []) (nth i F []) = false) \/
+    (exists j, j < length F /\ pdomb (nth j F []) (nth i F []) = true /\
+               forall k, k < length F -> pdomb (nth k F []) (nth j F []) = false).
+Proof.
+  intro WF. set (n := length F). set (dom := fun j i => pdomb (nth j F []) (nth i F [])).
+  assert (Hspec : forall a b, a < n -> b < n -> (dom a b = true <-> pdom (nth a F []) (nth b F []))).
+  { intros a b Ha Hb. destruct (row_ok F m a WF Ha) as [La Oa]. destruct (row_ok F m b WF Hb) as [Lb Ob].
+    unfold dom. apply (pdomb_spec L); congruence. }
+  induction c as [|c IH]; intros i Hi Hc.
+  - left. intros j Hj. destruct (pdomb (nth j F []) (nth i F [])) eqn:E; [|reflexivity]. exfalso.
+    assert (In j (filter (fun j0 => pdomb (nth j0 F []) (nth i F [])) (seq 0 n))) by (apply filter_In; split; [apply in_seq; lia|exact E]).
+    destruct (filter _ _); [contradiction|cbn in Hc; lia].
+  - destruct (existsb (fun j => dom j i) (seq 0 n)) eqn:Ex.
+    + apply existsb_exists in Ex as (j & Hjin & Hji). apply in_seq in Hjin. assert (Hj : j < n) by lia.
+      assert (Hlt : length (filter (fun k => dom k j) (seq 0 n)) < length (filter (fun k => dom k i) (seq 0 n))).
+      { apply (filter_length_lt _ _ _ j).
+        - intros k Hk Hkj. apply in_seq in Hk. apply (Hspec k i ltac:(lia) Hi).
+          destruct (row_ok F m k WF ltac:(lia)) as [_ Ok']. destruct (row_ok F m j WF Hj) as [_ Oj]. destruct (row_ok F m i WF Hi) as [_ Oi].
+          eapply (pdom_trans L); [exact Ok'|exact Oj|exact Oi| |]; [apply (Hspec k j ltac:(lia) Hj); exact Hkj|apply (Hspec j i Hj Hi); exact Hji].
+        - apply in_seq. lia.
+        - exact Hji.
+        - destruct (dom j j) eqn:E; [|reflexivity]. exfalso. apply (Hspec j j Hj Hj) in E.
+          destruct (row_ok F m j WF Hj) as [_ Oj]. exact (pdom_irrefl L _ Oj E). }
+      assert (Hcj : length (filter (fun j0 => pdomb (nth j0 F []) (nth j F [])) (seq 0 (length F))) <= c).
+      { change (length (filter (fun k => dom k j) (seq 0 n)) <= c).
+        change (length (filter (fun k => dom k i) (seq 0 n)) <= S c) in Hc. lia. }
+      destruct (IH j Hj Hcj) as [Hnd|(k & Hk & Hkj & Hknd)].
+      * right. exists j. auto.
+      * right. exists k. split; [assumption|]. split; [|assumption].
+        apply (Hspec k i Hk Hi).
+        destruct (row_ok F m k WF Hk) as [_ Ok']. destruct (row_ok F m j WF Hj) as [_ Oj]. destruct (row_ok F m i WF Hi) as [_ Oi].
+        eapply (pdom_trans L); [exact Ok'|exact Oj|exact Oi| |]; [apply (Hspec k j Hk Hj); exact Hkj|apply (Hspec j i Hj Hi); exact Hji].
+    + left. intros j Hj. change (dom j i = false). destruct (dom j i) eqn:E; [|reflexivity]. exfalso.
+      assert (existsb (fun j0 => dom j0 i) (seq 0 n) = true); [|congruence].
+      apply existsb_exists. exists j. split; [apply in_seq; lia|exact E].
+Qed.
+
+(* the first validated front is exactly the set of individuals nobody dominates *)
+Lemma first_front_complete (F : list (list N)) f0 rest i :
+  fronts_ok F (length F) [] (f0 :: rest) = true -> i < length F ->
+  (forall j, j < length F -> pdomb (nth j F []) (nth i F []) = false) -> In i f0.
+Proof.
+  intros H Hi Hnd. cbn [fronts_ok] in H. rewrite !andb_true_iff in H. destruct H as [[[[H1 H2] H3] _] _].
+  apply Nat.eqb_eq in H1. apply nodupb_NoDup in H3.
+  set (remaining := filter (fun i0 => negb (memb i0 [])) (seq 0 (length F))) in *.
+  set (nd := filter (nondominated_in F remaining) remaining) in *.
+  assert (Hincl : incl f0 nd) by (intros x Hx; rewrite forallb_forall in H2; apply memb_In; auto).
+  assert (Hle : length nd <= length f0) by lia.
+  apply (NoDup_length_incl H3 Hle Hincl).
+  assert (Hrem : In i remaining) by (apply filter_In; split; [apply in_seq; lia|reflexivity]).
+  apply filter_In. split; [assumption|]. unfold nondominated_in. apply negb_true_iff.
+  destruct (existsb _ remaining) eqn:E; [|reflexivity]. apply existsb_exists in E as (j & Hj & Hd).
+  apply filter_In in Hj as [Hj _]. apply in_seq in Hj. rewrite Hnd in Hd by lia. discriminate.
+Qed.
+
+(* C08: among the survivors, the members of the first front are exactly those that no survivor dominates *)
+Lemma rank0_iff_nondominated (F : list (list N)) m n fronts surv f0 rest s :
+  well_formed_objs F m -> rnc_result F n fronts surv -> fronts = f0 :: rest -> In s surv -> s < length F ->
+  (In s f0 <-> forall d, In d surv -> pdomb (nth d F []) (nth s F []) = false).
+Proof.
+  intros WF Hres Hf Hs Hsl. pose proof Hres as [Hnds (sel & Hsurv & Hi & Hnd)].
+  pose proof (is_ndsb_parts _ _ _ Hnds) as (Hok & _ & _). rewrite Hf in Hok.
+  assert (Hrange : forall x, In x surv -> x < length F).
+  { intros x Hx. destruct (fronts_ok_spec _ _ _ _ Hok) as (_ & Hr & _). rewrite Forall_forall in Hr.
+    assert (In x (concat (f0 :: rest))).
+    { subst surv fronts. apply in_app_or in Hx as [Hx|Hx].
+      - rewrite (concat_removelast_last (f0 :: rest)) by discriminate. apply in_or_app. now left.
+      - rewrite (concat_removelast_last (f0 :: rest)) by discriminate. apply in_or_app. right. now apply Hi. }
+    now apply Hr. }
+  split.
+  - intros Hin d Hd. destruct (pdomb (nth d F []) (nth s F [])) eqn:E; [|reflexivity]. exfalso.
+    exact (dominator_earlier F [] f0 rest s d Hok Hin (Hrange d Hd) E).
+  - intro Hnone. destruct (descent F m WF (length F) s Hsl) as [Hall|(j & Hj & Hjs & Hjnd)].
+    { rewrite <- (seq_length (length F) 0) at 2. generalize (seq 0 (length F)). intro l0. induction l0 as [|z l0 IHl]; cbn; [lia|]. destruct (pdomb _ _); cbn; lia. }
+    + exact (first_front_complete F f0 rest s Hok Hsl Hall).
+    + (* a non-dominated j dominates s: j is in the first front, which survives entirely unless it is the only front *)
+      pose proof (first_front_complete F f0 rest j Hok Hj Hjnd) as Hjf0.
+      destruct rest as [|f1 rest'].
+      * subst fronts surv. cbn in *. apply Hi. exact Hs.
+      * exfalso. assert (Hjs' : In j surv).
+        { subst surv fronts. apply in_or_app. left.
+          change (removelast (f0 :: f1 :: rest')) with (f0 :: removelast (f1 :: rest')). cbn. apply in_or_app. now left. }
+        rewrite (Hnone j Hjs') in Hjs. discriminate.
+Qed.
+
+(* the rank attribute written on the members of the k-th processed front is k *)
+Fixpoint rank_pairs (k : nat) (fronts : list (list nat)) : list (nat * nat) :=
+  match fronts with [] => [] | fr :: rest => map (fun i => (i, k)) fr ++ rank_pairs (S k) rest end.
+
+Lemma map2_rank_proj (front : list nat) (crowd : list N) k : length crowd = length front ->
+  map (fun a : nat * nat * N => fst a) (map2 (fun i c => (i, k, c)) front crowd) = map (fun i => (i, k)) front.
+Proof.
+  revert crowd. induction front as [|i front IH]; intros [|c crowd] H; cbn in *; try discriminate; [reflexivity|].
+  f_equal. apply IH. lia.
+Qed.
+
+Lemma rnc_loop_attrs n : forall fronts k surv attrs s surv' attrs' s',
+  rnc_loop (N := N) n k fronts surv attrs s = Ok ((surv', attrs'), s') ->
+  map (fun a : nat * nat * N => fst a) attrs' = map (fun a : nat * nat * N => fst a) attrs ++ rank_pairs k fronts.
+Proof.
+  induction fronts as [|fr rest IH]; intros k surv attrs s surv' attrs' s' H; cbn [rnc_loop rank_pairs] in *.
+  - apply ret_ok in H as [H _]. inversion H; subst. now rewrite app_nil_r.
+  - destruct (n <? length surv + length fr).
+    + apply bind_ok in H as (crowd & s1 & Hc & H). apply bind_ok in H as (perm & s2 & Hp & H).
+      apply bind_ok in H as (sel & s3 & Hsel & H). apply lift_ok in Hsel as [_ <-].
+      apply draw_crowd_ok in Hc. apply IH in H. rewrite H, map_app, (map2_rank_proj fr crowd k Hc), <- app_assoc. reflexivity.
+    + apply bind_ok in H as (crowd & s1 & Hc & H). apply draw_crowd_ok in Hc.
+      apply IH in H. rewrite H, map_app, (map2_rank_proj fr crowd k Hc), <- app_assoc. reflexivity.
+Qed.
+
+Lemma rnc_do_attrs F n s surv attrs s' :
+  rnc_do (N := N) F n s = Ok ((surv, attrs), s') ->
+  exists fronts, is_ndsb F n fronts = true /\ map (fun a : nat * nat * N => fst a) attrs = rank_pairs 0 fronts.
+Proof.
+  unfold rnc_do. intro H. apply bind_ok in H as (fronts & s1 & Hd & H). apply draw_nds_ok in Hd.
+  apply rnc_loop_attrs in H. exists fronts. split; [assumption|exact H].
 Qed.
 End P.
